@@ -1321,6 +1321,20 @@ func (e *escaper) escapeText(c context, n *parse.TextNode) context {
 		if c.state == stateTag {
 			// (In an end tag, too: `</b{{if .C}}data-x="{{.V}}"{{end}}>` has no attribute.)
 			c.element.split = true
+			// For a browser the tag name goes on up to white space, "/" or ">", and quotes and
+			// "=" are part of it: what the transition functions would read as a quoted
+			// attribute value is not one, and for the rest of the tag quoted and unquoted
+			// text would change places.
+			rest := s
+			if i := bytes.IndexAny(rest, " \t\n\f\r/>"); i >= 0 {
+				rest = rest[:i]
+			}
+			if i := bytes.IndexAny(rest, "=\"'"); i >= 0 {
+				return context{
+					state: stateError,
+					err:   errorf(ErrBadHTML, n, 0, "%q in a tag name that is continued after a template node: %.32q", rest[i], s),
+				}
+			}
 		} else {
 			c.attr.split, c.element.attrSplit = true, true
 		}
